@@ -767,6 +767,14 @@ func logsFirst(xs []*S) bool {
 	case "if":
 		return true
 	case "switch":
+		if s.Form == "tagless" {
+			// only the conditions of its non-default clauses are events
+			n := len(s.Cases)
+			if s.Def {
+				n--
+			}
+			return n > 0 || s.Init == "eff" || s.Init == "yield"
+		}
 		return s.Form != "tag" || len(s.Cases) > 0
 	case "block":
 		return logsFirst(s.A)
